@@ -2019,12 +2019,16 @@ pub fn hemmed(shard: usize, f: Sink) {
 /// ALIGNED as raw boards: a king on one of four inner squares; in each of the eight directions
 /// nothing, an enemy slider at distance 2 (bishop on diagonals, rook on lines; second variant:
 /// queens everywhere), or that slider with an enemy knight on the square between (blocked): 3^8
-/// arrangements x 2 slider variants x 4 king squares x 2 sides to move; the other king far away.
+/// arrangements x 3 slider variants x 4 king squares x 2 sides to move; the other king far away.
 /// Up to eight sliders aligned with the king, any number of them blocked; valid and invalid boards.
 pub fn aligned(shard: usize, f_raw: &mut dyn FnMut(&RawPos)) {
     let ksq = [sq(2, 2), sq(4, 3), sq(3, 5), sq(5, 4)][shard % 4];
-    let queens = shard / 4 % 2 == 1;
-    let kcol = (shard / 8 % 2) as u8;
+    // slider variant: 0 = bishops on diagonals, rooks on lines; 1 = queens everywhere; 2 = like 0,
+    // but an unblocked line carries a BISHOP at distance 2 with a rook behind it at distance 3 (a
+    // man that does not attack along the line, screening one that would)
+    let variant = shard / 4 % 3;
+    let queens = variant == 1;
+    let kcol = (shard / 12 % 2) as u8;
     let opp = 1 - kcol;
     let dirs = [(1, 0), (-1, 0), (0, 1), (0, -1), (1, 1), (1, -1), (-1, 1), (-1, -1)];
     let far = [0usize, 7, 56, 63].into_iter().find(|&c| (file_of(c) - file_of(ksq)).abs().max((rank_of(c) - rank_of(ksq)).abs()) >= 4).unwrap_or(63);
@@ -2050,6 +2054,12 @@ pub fn aligned(shard: usize, f_raw: &mut dyn FnMut(&RawPos)) {
             b[s2] = mk(opp, sl);
             if o == 2 {
                 b[s1] = mk(opp, N);
+            } else if variant == 2 && (df == 0 || dr == 0) {
+                let (f3, r3) = (file_of(ksq) + 3 * df, rank_of(ksq) + 3 * dr);
+                if (0..8).contains(&f3) && (0..8).contains(&r3) && b[sq(f3, r3)] == EMPTY {
+                    b[s2] = mk(opp, B);
+                    b[sq(f3, r3)] = mk(opp, R);
+                }
             }
         }
         if !ok {
@@ -2060,7 +2070,7 @@ pub fn aligned(shard: usize, f_raw: &mut dyn FnMut(&RawPos)) {
         }
     }
 }
-pub const ALIGNED_SHARDS: usize = 16;
+pub const ALIGNED_SHARDS: usize = 24;
 
 /// DISCOVER roots: an own pawn on its home square whose departure opens a line from an own slider
 /// to the enemy king (the pawn is the only man between them, on a rank or a diagonal through its
